@@ -183,6 +183,7 @@ func genC22(rng *rand.Rand, n int) SrvCase {
 	if rng.Intn(2) == 0 {
 		c.Cfg.AttrTTL = 5e9
 	}
+	c.Cfg.Async = rng.Intn(2) == 0
 	if rng.Intn(2) == 0 {
 		c.Seed = append(c.Seed, "file /f0 "+hx(randBytes(rng, rng.Intn(20))))
 	}
@@ -218,7 +219,7 @@ func checkC22(r *Result, rng *rand.Rand, thorough bool) {
 	if thorough {
 		ncases, n = 4000, 40
 	}
-	r.Rule = "random CREATE/WRITE(UNSTABLE, DATA_SYNC, FILE_SYNC)/COMMIT(whole file and ranges)/SETATTR(size) histories over the crash-simulating backend; durable image checked before every backend call and after every reply; write verifier constant per instance and distinct across 64 successively created instances"
+	r.Rule = "random CREATE/WRITE(UNSTABLE, DATA_SYNC, FILE_SYNC)/COMMIT(whole file and ranges)/SETATTR(size) histories, with ExportOptions.Async off and on, over the crash-simulating backend; durable image checked before every backend call and after every reply; write verifier constant per instance and distinct across 64 successively created instances"
 	crashPointsSeen = 0
 	for i := 0; i < ncases; i++ {
 		c := genC22(rng, 3+rng.Intn(n))
